@@ -251,6 +251,20 @@ func ppProtCase(w *bufio.Writer, r *u.Rng, dist map[string]int, caseNo int, long
 			return cls
 		}
 		if tamper {
+			// undersized packets: one byte below and exactly at the minimum the unpacker needs for
+			// the header-protection sample (packet number offset + 4 + 16)
+			for _, sz := range []int{pnOff + 19, pnOff + 20} {
+				var t []byte
+				if long {
+					h := mkHeader(pn, pnLen, sz-pnOff-pnLen-e.sealer.Overhead(), ptype, token) // Length field = sz - pnOff
+					t = append(append([]byte{}, h[:pnOff]...), r.Bytes(sz-pnOff)...)
+				} else {
+					t = append(append([]byte{}, pkt[:min(len(pkt), sz)]...), r.Bytes(max(0, sz-len(pkt)))...)
+				}
+				if !bytes.Equal(t, pkt) {
+					unprot(t, fmt.Sprintf("size %d = pn offset + %d", sz, sz-pnOff))
+				}
+			}
 			// tamper BEFORE the genuine delivery, so that the opener's state is the same
 			nflip := 5
 			all := os.Getenv("VERIF_TIER") == "thorough" && caseNo%10 == 0
@@ -343,14 +357,15 @@ func ppProtCase(w *bufio.Writer, r *u.Rng, dist map[string]int, caseNo int, long
 	default:
 		payload = r.Bytes(r.Range(minLen, 64))
 	}
-	rogue := 0
-	if r.Chance(1, 10) {
-		rogue = r.Range(1, 3)
+	round(pn, pnLen, payload, 0, r.Chance(2, 3))
+	if r.Chance(1, 2) {
+		// a sender that violates the first-byte layout (reserved bits, fixed bit, header form)
+		rogue := r.Range(1, 3)
 		if long {
 			rogue = 1
 		}
+		round(pn+1, pnLen, r.Bytes(r.Range(4, 12)), rogue, false)
 	}
-	round(pn, pnLen, payload, rogue, r.Chance(2, 3))
 }
 
 // ppRFCVectors: the Appendix A values of RFC 9001 (v1) and RFC 9369 (v2): keys, IVs and
